@@ -796,6 +796,11 @@ pub fn open_fds_of(pid: u32) -> Vec<i32> {
     let gl = g();
     (0..MAXFD).filter(|&i| gl.fds[i].open && gl.fds[i].owner == pid).map(|i| i as i32).collect()
 }
+/// descriptors that arrived in messages (SCM_RIGHTS) and are still open
+pub fn open_received_fds() -> Vec<i64> {
+    let gl = g();
+    (0..MAXFD).filter(|&i| gl.fds[i].open && gl.fds[i].via == 1).map(|i| gl.fds[i].lid as i64).collect()
+}
 pub fn data_rng() -> &'static mut Rng {
     &mut g().rng_data
 }
